@@ -1757,6 +1757,8 @@ def m_map_retain(I, state, frame, bi, t, args, span):
             merged = join_state(merged, s2)
         st = merged if merged is not None else state
         tags = set(v[3])
+        I.rec.put("retain", I.sitekey(frame, bi, -2),
+                  dict(fn=frame.body.name, bb=bi, span=span, stack=frame.stack, form="map_retain", tags=frozenset(v[3])))
         if "history_clone" in tags:
             tags.add("history_filtered")
             c = deref(I, st, args[1]) if args[1][0] == "ref" else args[1]
